@@ -722,7 +722,6 @@ def build_batch(shapes, tag):
 def custom_run(pid, tier, seed, replay=None):
     t0 = time.time()
     rng = random.Random(seed)
-    prop = sys.modules[__name__]
     coq = core.coq_check(pid, thorough=(tier == "thorough"))
     zmodel, merr = core.model_build(pid, RUN_MODULE)
     kf = core.known_findings(pid)
